@@ -834,3 +834,256 @@ pub fn run_reset(ctx: &Ctx) {
     }
     out.finish(&ctx.out_dir, "sigreset", &[]);
 }
+
+// =================================================================================================
+// C10: hostile prefixes
+
+fn hostile_segment(a: &mut Audio, rng: &mut Rng, kind: usize) -> &'static str {
+    let rate = a.line.rate as usize;
+    let big = 1048576.0f32; // 2^20
+    match kind {
+        0 => {
+            let n = rng.range(1, 2 * rate as u64) as usize;
+            let xs: Vec<f32> = (0..n).map(|_| ((rng.unit() * 2.0 - 1.0) as f32) * big).collect();
+            a.raw(&xs);
+            "random_2^20"
+        }
+        1 => {
+            let n = rng.range(1, 2 * rate as u64) as usize;
+            let half = rng.range(1, 200) as usize;
+            let amp = *rng.pick(&[32767.0f32, big, 1.0, 100.0]);
+            let xs: Vec<f32> = (0..n).map(|i| if (i / half) % 2 == 0 { amp } else { -amp }).collect();
+            a.raw(&xs);
+            "clipping_square"
+        }
+        2 => {
+            let n = rng.range(1, rate as u64) as usize;
+            let level = *rng.pick(&[32767.0f32, -32768.0, big, -big, 1000.0]);
+            a.raw(&vec![level; n]);
+            "dc_step"
+        }
+        3 => {
+            // truncated transmission: a header burst cut somewhere, or two bursts and a bit
+            let h = gen_header_any(rng).text().into_bytes();
+            let before = a.samples.len();
+            let nb = rng.range(1, 3);
+            for k in 0..nb {
+                a.burst(16, &h, rng);
+                if k + 1 < nb {
+                    a.silence(1.0, rng);
+                }
+            }
+            let len = a.samples.len() - before;
+            let keep = rng.below(len as u64) as usize;
+            a.samples.truncate(before + keep);
+            a.raw(&[]);
+            "truncated_transmission"
+        }
+        4 => {
+            let k = rng.range(30, 400) as usize;
+            a.burst(k, &[], rng);
+            "long_preamble"
+        }
+        5 => {
+            let bytes: Vec<u8> = (0..rng.range(50, 600)).map(|_| rng.next() as u8).collect();
+            a.burst(16, &bytes, rng);
+            "garbage_carrier"
+        }
+        6 => {
+            // abrupt level changes on a carrier
+            let old = a.line.amplitude;
+            for _ in 0..rng.range(2, 6) {
+                a.line.amplitude = *rng.pick(&[10.0, 300.0, 3000.0, 30000.0, 200000.0]);
+                let bytes: Vec<u8> = (0..rng.range(5, 40)).map(|_| *rng.pick(CALL_CHARS)).collect();
+                a.burst(4, &bytes, rng);
+            }
+            a.line.amplitude = old;
+            "level_jumps"
+        }
+        7 => {
+            let secs = rng.unit() * 2.0;
+            a.silence(secs, rng);
+            "silence"
+        }
+        8 => {
+            let n = rng.range(1, rate as u64) as usize;
+            let xs: Vec<f32> = (0..n).map(|i| if i % rng.range(50, 5000) as usize == 0 { big } else { 0.0 }).collect();
+            a.raw(&xs);
+            "impulses"
+        }
+        9 => {
+            let secs = rng.unit() * 2.0;
+            noise(a, rng, secs);
+            "noise"
+        }
+        10 => {
+            let h = gen_header_any(rng).text().into_bytes();
+            // malformed: right framing, text that is not a header
+            let mut m = b"ZCZC-".to_vec();
+            m.extend(h.iter().rev());
+            for k in 0..3 {
+                a.burst(16, &m, rng);
+                if k < 2 {
+                    a.silence(1.0, rng);
+                }
+            }
+            "malformed_transmission"
+        }
+        _ => {
+            let n = rng.range(1, rate as u64) as usize;
+            let xs: Vec<f32> = (0..n).map(|i| ((i as f32 / n as f32) * 2.0 - 1.0) * big).collect();
+            a.raw(&xs);
+            "ramp"
+        }
+    }
+}
+
+/// diagnostic (not a suite): failure rate after hostile prefixes vs cold start, per (rate, baud error)
+pub fn corner3(seed: u64) {
+    let mut rng = Rng::new(seed);
+    for rate in [48000u32, 96000] {
+        for be in [-0.01f64, -0.008, 0.0, 0.006] {
+            let (mut fp, mut fc) = (0, 0);
+            let n = 80;
+            for _ in 0..n {
+                let mut lg = gen_line(&mut rng, rate);
+                lg.line.baud_err = be;
+                lg.line.noise_rel = 0.0;
+                let mut a = Audio::new(lg.line.clone());
+                for _ in 0..rng.range(1, 6) {
+                    let k = rng.below(12) as usize;
+                    hostile_segment(&mut a, &mut rng, k);
+                }
+                let prefix_end = a.samples.len();
+                let q = 1.0 + rng.unit() * 2.0;
+                a.silence(q, &mut rng);
+                let h = gen_header_any(&mut rng).text().into_bytes();
+                for k in 0..3 {
+                    a.burst(16, &h, &mut rng);
+                    if k < 2 {
+                        a.silence(lg.pause, &mut rng);
+                    }
+                }
+                a.silence(3.0, &mut rng);
+                for k in 0..3 {
+                    a.burst(16, b"NNNN", &mut rng);
+                    if k < 2 {
+                        a.silence(lg.pause, &mut rng);
+                    }
+                }
+                a.silence(2.2, &mut rng);
+                let ok = |evs: &[SameReceiverEvent], after: u64| {
+                    let m: Vec<(u64, String)> = messages(evs).into_iter().filter(|x| x.0 > after).collect();
+                    m.iter().filter(|x| x.1.starts_with(&format!("som_{}", hex(&h)))).count() == 1 && m.iter().any(|x| x.1 == "eom")
+                };
+                let mut r = build(Cfg::Samedec, rate);
+                if !ok(&run_plain(&mut r, &a.samples), prefix_end as u64) {
+                    fp += 1;
+                }
+                let mut r = build(Cfg::Samedec, rate);
+                if !ok(&run_plain(&mut r, &a.samples[prefix_end..]), 0) {
+                    fc += 1;
+                }
+            }
+            println!("rate={} baud_err={:+.3}: after hostile prefix {}/{} failed, cold start {}/{} failed", rate, be, fp, n, fc, n);
+        }
+    }
+}
+
+/// Suite `sighostile`: hostile prefixes in random order, then >= 1 s of quiet and a C01 transmission.
+pub fn run_hostile(ctx: &Ctx) {
+    let mut out = Out::create(&ctx.out_dir, "sighostile");
+    let mut rng = Rng::new(ctx.seed ^ 0xC10);
+    let n = if ctx.tier_thorough { 1500 } else { 60 };
+    for i in 0..n {
+        let rate = pick_rate(&mut rng, i);
+        let lg = gen_line(&mut rng, rate);
+        let mut a = Audio::new(lg.line.clone());
+        let nseg = rng.range(1, 6);
+        let mut kinds: Vec<&str> = vec![];
+        let forced: Option<Vec<usize>> = match (std::env::var("HOSTILE_ONLY"), std::env::var("HOSTILE_KINDS")) {
+            (Ok(only), Ok(ks)) if only == i.to_string() => Some(ks.split(',').filter(|x| !x.is_empty()).map(|x| x.parse().unwrap()).collect()),
+            _ => None,
+        };
+        match forced {
+            Some(ks) => {
+                for k in ks {
+                    kinds.push(hostile_segment(&mut a, &mut rng, k));
+                }
+            }
+            None => {
+                for _ in 0..nseg {
+                    let k = rng.below(12) as usize;
+                    kinds.push(hostile_segment(&mut a, &mut rng, k));
+                }
+            }
+        }
+        let prefix_end = a.samples.len();
+        // at least one second of quiet (no noise floor: the line's own noise setting applies to the transmission)
+        a.silence(1.0 + rng.unit() * 2.0, &mut rng);
+        let h = gen_header_any(&mut rng).text().into_bytes();
+        for k in 0..3 {
+            a.burst(16, &h, &mut rng);
+            if k < 2 {
+                a.silence(lg.pause, &mut rng);
+            }
+        }
+        a.silence(1.5 + rng.unit() * 3.0, &mut rng);
+        for k in 0..3 {
+            a.burst(16, b"NNNN", &mut rng);
+            if k < 2 {
+                a.silence(lg.pause, &mut rng);
+            }
+        }
+        a.silence(2.2, &mut rng);
+        let cfg = if rng.chance(1, 2) { Cfg::Default } else { Cfg::Samedec };
+        let label = format!("{} cfg={:?} case={} prefix={}", lg.line.describe(), cfg, i, kinds.join("+")).replace(' ', ";");
+        let samples = a.samples.clone();
+        if let Ok(only) = std::env::var("HOSTILE_ONLY") {
+            if only != i.to_string() {
+                continue;
+            }
+            // diagnostic: the same transmission from a cold start (prefix removed)
+            let mut r = build(cfg, rate);
+            let evs = run_plain(&mut r, &samples[prefix_end..]);
+            eprintln!("cold start, prefix removed: {:?}", messages(&evs).iter().map(|m| (m.0, m.1.chars().take(8).collect::<String>())).collect::<Vec<_>>());
+            let mut r = build(cfg, rate);
+            let evs = run_plain(&mut r, &samples);
+            eprintln!("with prefix (ends {}): {:?}", prefix_end, messages(&evs).iter().map(|m| (m.0, m.1.chars().take(8).collect::<String>())).collect::<Vec<_>>());
+            for e in evs.iter().filter(|e| e.burst().is_some()) {
+                eprintln!("  burst at {} len {} : {:?}", e.input_sample_counter(), e.burst().unwrap().len(), String::from_utf8_lossy(&e.burst().unwrap()[..e.burst().unwrap().len().min(30)]));
+            }
+            eprintln!("  transmitted bursts at {:?}", a.bursts.iter().filter(|b| b.0 >= prefix_end).collect::<Vec<_>>());
+        }
+        let result = std::panic::catch_unwind(move || {
+            let mut r = build(cfg, rate);
+            let (evs, taps) = run_tapped(&mut r, &samples);
+            let dbg = format!("{:?}", r);
+            (evs, taps, dbg)
+        });
+        match result {
+            Err(_) => {
+                out.spec(&format!("spec.sig c10 {},{} [{}] => PANIC", hex(&h), prefix_end, label));
+                out.n_ops += 1;
+            }
+            Ok((evs, taps, dbg)) => {
+                let (op, imp) = link_op(&taps);
+                out.op(&op, &imp, true);
+                let (op, imp) = rx_op(rate, &taps, &evs);
+                out.op(&op, &imp, true);
+                let msgs = messages(&evs);
+                let m = if msgs.is_empty() { "-".to_owned() } else { msgs.iter().map(|(t, s)| format!("{}:{}", t, s)).collect::<Vec<_>>().join(",") };
+                let finite = !(dbg.contains("NaN") || dbg.contains("inf"));
+                out.spec(&format!("spec.sig c10 {},{} [{}] => {} finite={}", hex(&h), prefix_end, label, m, finite as u8));
+                let evline = show_events(&evs);
+                out.spec(&format!("spec.sig c04 {} [{}] => {}", rate, label, evline));
+                out.spec(&format!("spec.sig c13life - [{}] => {}", label, evline));
+            }
+        }
+        for k in &kinds {
+            out.count(&format!("prefix_kind:{}", k));
+        }
+        out.count(&format!("prefix_segments:{}", nseg));
+    }
+    out.finish(&ctx.out_dir, "sighostile", &[]);
+}
